@@ -39,6 +39,7 @@ class Unsupported(Exception):
 # --------------------------------------------------------------------------------------------
 TOK = re.compile(r"""
   (?P<ws>\s+|//[^\n]*|/\*.*?\*/)
+ |(?P<bstr>b"(?:\\.|[^"\\])*")
  |(?P<byte>b'(?:\\.|[^\\'])')
  |(?P<str>"(?:\\.|[^"\\])*")
  |(?P<num>0x[0-9a-fA-F_]+(?:u8|u16|u32|u64|usize)?|[0-9][0-9_]*(?:u8|u16|u32|u64|usize)?)
@@ -307,6 +308,17 @@ class Parser:
         if k in ("num", "byte"):
             self.i += 1
             return ("num", lit_value(k, v), lit_suffix(k, v))
+        if k == "bstr":
+            self.i += 1
+            body, out, j = v[2:-1], [], 0
+            while j < len(body):
+                if body[j] == "\\":
+                    out.append({"\\": 92, '"': 34, "n": 10, "t": 9, "r": 13, "0": 0}[body[j + 1]])
+                    j += 2
+                else:
+                    out.append(ord(body[j]))
+                    j += 1
+            return ("bytes", out)
         if k == "str":
             self.i += 1
             return ("str", v)
@@ -785,6 +797,8 @@ class Translator:
             return [], self.lit(e[1]), e[2] or expect or "int"
         if k == "unit":
             return [], "()", "()"
+        if k == "bytes":
+            return [], "([" + ", ".join(str(x) for x in e[1]) + "] : Bytes)", "bytes"
         if k == "var":
             n = e[1]
             if n in env:
@@ -976,6 +990,8 @@ class Translator:
                 n = cx.gensym("w")
                 w = "16" if segs[1] == "read_u16" else "32"
                 return pb + pi + [("bind", n, "be%s %s %s" % (w, b, ti))], n, "u" + w
+            if segs in (["Vec", "with_capacity"], ["Vec", "new"]):
+                return [], "([] : Bytes)", "bytes"
             if len(segs) == 2 and segs[1] == "from" and segs[0] in INTS:
                 return self.expr(("cast", args[0], segs[0]), env, cx, expect)
             if segs[0] == "mem" and segs[1] == "replace":
@@ -1039,6 +1055,11 @@ class Translator:
             if name in EXTERNAL:
                 return self.call_external(name, args, env, cx)
             raise Unsupported("method self.%s" % name)
+        if name == "is_empty" and not args:
+            pre, t, ty = self.expr(recv, env, cx)
+            if ty != "bytes":
+                raise Unsupported(".is_empty() of %s" % ty)
+            return pre, "%s.isEmpty" % t, "bool"
         if name == "len" and not args:
             pre, t, ty = self.expr(recv, env, cx)
             if ty != "bytes":
@@ -1468,6 +1489,8 @@ class Translator:
         if it[0] == "mcall" and it[2] == "zip" and it[1][0] == "mcall" and it[1][2] == "iter" and \
                 it[3] and it[3][0][0] == "mcall" and it[3][0][2] == "iter" and pat[0] == "ptuple" and len(pat[1]) == 2:
             return self.for_zip(pat, it[1][1], it[3][0][1], body, env, cx, k)
+        if pat[0] == "pid" and it[0] != "range":
+            return self.for_zip(("ptuple", [pat, None]), it, None, body, env, cx, k)
         if pat[0] != "pwild" or it[0] != "range" or it[1] != ("num", 0, None) or it[2] is None:
             raise Unsupported("for loop other than `for _ in 0..n`")
         fn = cx.fn
@@ -1499,41 +1522,79 @@ class Translator:
         cx.aux.append("%s\n  | 0, %s =>\n%s\n  | left+1, %s =>\n%s" % (sig, pats, done, pats, text))
         return wrap(pn, "%s %s %s %s" % (name, fixed_args, tn, " ".join(env[n].lean for n in carried)))
 
+    def escapes(self, e, top=True):
+        """does the loop body leave the loop other than by falling through or failing (`return`, `break`, `continue`)?"""
+        if isinstance(e, tuple):
+            if e and e[0] == "return":
+                return True
+            if e and e[0] in ("break", "continue"):
+                return top
+            inner = top and not (e and e[0] in ("loop", "while", "for"))
+            return any(self.escapes(x, inner) for x in e)
+        if isinstance(e, list):
+            return any(self.escapes(x, top) for x in e)
+        return False
+
     def for_zip(self, pat, ea, eb, body, env, cx, k):
         """`for (&a, &b) in x.iter().zip(y.iter()) { body }` : recursion on the two byte lists"""
         fn = cx.fn
+        single = eb is None
         pa, ta, tya = self.expr(ea, env, cx)
-        pb, tb, tyb = self.expr(eb, env, cx)
-        if tya != "bytes" or tyb != "bytes" or pat[1][0][0] != "pid" or pat[1][1][0] != "pid":
-            raise Unsupported("zip over something other than two byte slices")
+        pb, tb, tyb = ([], "", "bytes") if single else self.expr(eb, env, cx)
+        if tya != "bytes" or tyb != "bytes" or pat[1][0][0] != "pid" or (not single and pat[1][1][0] != "pid"):
+            raise Unsupported("loop over something other than byte slices")
         acc = []
         self.assigned(body, acc)
         carried = [n for n in dict.fromkeys(acc) if n in env]
         cx.nloops = getattr(cx, "nloops", 0) + 1
-        name = "%s_zip%d" % (fn["lean"], cx.nloops)
+        name = "%s_%s%d" % (fn["lean"], "each" if single else "zip", cx.nloops)
         env2, la = cx.declare(env, pat[1][0][1], "u8")
-        env2, lb = cx.declare(env2, pat[1][1][1], "u8")
+        lb = None
+        if not single:
+            env2, lb = cx.declare(env2, pat[1][1][1], "u8")
         outer = cx.loop
 
         def again(env1):
-            return "%s FIXED rest_a rest_b %s" % (name, " ".join(env1[n].lean for n in carried))
+            return "%s FIXED rest_a%s %s" % (name, "" if single else " rest_b", " ".join(env1[n].lean for n in carried))
 
         def after(env1):
-            raise Unsupported("break inside a zip loop")
+            raise Unsupported("break inside a slice loop")
         cx.loop = {"again": again, "after": after}
         text = self.cps(body, env2, cx, lambda env1, v, vty=None: again(env1))
         cx.loop = outer
-        done = k(env, "()")
+        local = not self.escapes(body)
+        if local:
+            # the body only accumulates: the loop is a function from the state to the state, bound at the call site
+            tup = "()" if not carried else env[carried[0]].lean if len(carried) == 1 else "(" + ", ".join(env[n].lean for n in carried) + ")"
+            done = "Res.ok %s" % tup
+        else:
+            done = k(env, "()")
         both = text + "\n" + done
         fixed = [n for n in env if n not in carried and re.search(r"(?<![\w'.])%s(?![\w'])" % re.escape(env[n].lean), both)]
         fixed_args = " ".join(env[n].lean for n in fixed)
         text = text.replace("%s FIXED rest_a" % name, ("%s %s rest_a" % (name, fixed_args)).replace("  ", " "))
-        sig = "def %s %s : Bytes → Bytes%s → Res (%s)" % (
-            name, " ".join("(%s : %s)" % (env[n].lean, lean_ty(env[n].ty)) for n in fixed),
+        if local:
+            rty = "Unit" if not carried else " × ".join(lean_ty(env[n].ty) for n in carried)
+            sig = "def %s %s : Bytes%s%s → Res (%s)" % (
+                name, " ".join("(%s : %s)" % (env[n].lean, lean_ty(env[n].ty)) for n in fixed), "" if single else " → Bytes",
+                "".join(" → " + lean_ty(env[n].ty) for n in carried), rty)
+            pats = "".join(", " + env[n].lean for n in carried)
+            if single:
+                cx.aux.append("%s\n  | a_ :: rest_a%s =>\n(let %s := a_.toNat;\n%s)\n  | []%s =>\n%s" % (sig, pats, la, text, pats, done))
+            else:
+                cx.aux.append("%s\n  | a_ :: rest_a, b_ :: rest_b%s =>\n(let %s := a_.toNat;\n(let %s := b_.toNat;\n%s))\n  | _, _%s =>\n%s" % (
+                    sig, pats, la, lb, text, pats, done))
+            call = "%s %s %s %s %s" % (name, fixed_args, ta, tb, " ".join(env[n].lean for n in carried))
+            return wrap(pa + pb, "(%s >>= fun %s =>\n%s)" % (call, tup if carried else "_", k(env, "()")))
+        sig = "def %s %s : Bytes%s%s → Res (%s)" % (
+            name, " ".join("(%s : %s)" % (env[n].lean, lean_ty(env[n].ty)) for n in fixed), "" if single else " → Bytes",
             "".join(" → " + lean_ty(env[n].ty) for n in carried), self.ret_lean(fn))
         pats = "".join(", " + env[n].lean for n in carried)
-        cx.aux.append("%s\n  | a_ :: rest_a, b_ :: rest_b%s =>\n(let %s := a_.toNat;\n(let %s := b_.toNat;\n%s))\n  | _, _%s =>\n%s" % (
-            sig, pats, la, lb, text, pats, done))
+        if single:
+            cx.aux.append("%s\n  | a_ :: rest_a%s =>\n(let %s := a_.toNat;\n%s)\n  | []%s =>\n%s" % (sig, pats, la, text, pats, done))
+        else:
+            cx.aux.append("%s\n  | a_ :: rest_a, b_ :: rest_b%s =>\n(let %s := a_.toNat;\n(let %s := b_.toNat;\n%s))\n  | _, _%s =>\n%s" % (
+                sig, pats, la, lb, text, pats, done))
         return wrap(pa + pb, "%s %s %s %s %s" % (name, fixed_args, ta, tb, " ".join(env[n].lean for n in carried)))
 
     # ---- functions ----
@@ -1634,6 +1695,7 @@ GROUPS = {
              dict(file="src/compress.rs", impl="Compress", fn="raw_name_len_after_decompression", fuel=NAME_FUEL),
              dict(file="src/compress.rs", impl="Compress", fn="copy_uncompressed_name", fuel=NAME_FUEL,
                   ret_lean="(Nat × Nat) × Bytes"),
+             dict(file="src/compress.rs", impl="Compress", fn="raw_name_to_str", fuel=NAME_FUEL + " + 20"),
              dict(file="src/compress.rs", impl="SuffixDict", fn="raw_names_eq_ignore_case",
                   sig=(["&[u8]", "&[u8]"], "bool"))],
     ),
